@@ -336,7 +336,7 @@ CONTROLS += [
 
 # seeded changes and the properties whose checks are expected to report them (DESIGN.md section 7 table)
 SEED_EXPECT = {
-    'C01a': ['C06', 'C11'], 'C03a': ['C13', 'C20'], 'C03b': ['C03'], 'C04a': ['C04', 'C10'], 'C04b': ['C04'], 'C05a': ['C05', 'C13', 'C20'], 'C05b': ['C05'],
+    'C01a': ['C06', 'C11'], 'C01b': ['C01'], 'C03a': ['C13', 'C20'], 'C03b': ['C03'], 'C04a': ['C04', 'C10'], 'C04b': ['C04'], 'C05a': ['C05', 'C13', 'C20'], 'C05b': ['C05'],
     'C06a': ['C06', 'C10'], 'C06b': ['C06'], 'C08a': ['C08', 'C09'], 'C08b': ['C05', 'C13', 'C20'], 'C09b': ['C04', 'C05', 'C16'], 'C10b': ['C10'],
     'C11a': ['C06', 'C11'], 'C11b': ['C11'], 'C13a': ['C05', 'C13', 'C20'], 'C13b': ['C13', 'C14'], 'C14a': ['C13', 'C14'], 'C14b': ['C13', 'C14'],
     'C15a': ['C15'], 'C15b': ['C10', 'C15'], 'C16a': ['C04', 'C05', 'C16'], 'C16b': ['C16'], 'C17a': ['C17'], 'C17b': ['C09', 'C17'], 'C18a': ['C18'],
